@@ -89,7 +89,18 @@ impl Prop for C11 {
             }
             let cfg = gen_cfg(&mut rng, variant, vc.hooks);
             let o = GenOpts { max_files: 3, max_ops: 8, max_piece: 2 * c.block + 50, max_total: if big { 2 * c.block + 3 * c.chunk } else { 5 * c.block }, interleave: rng.chance(1, 2), flushes: false, special_names: false, finalize: true, piece_scheds: false };
-            case = Case::new("C11", cfg, gen_ops(&mut rng, &c, &o));
+            let mut ops = gen_ops(&mut rng, &c, &o);
+            let mut cfg = cfg;
+            if big && rng.chance(1, 2) {
+                // layer plaintext length solved onto / next to a real chunk or block edge
+                if cfg.comp() {
+                    cfg.level = cfg.level.min(5);
+                    align_stream(&mut ops, vc.block as usize, *rng.pick(&[0usize, 0, 1, vc.block as usize - 1]));
+                } else if cfg.enc() {
+                    align_stream(&mut ops, vc.chunk as usize, *rng.pick(&[0usize, 0, 1, 15, 16, 17, vc.chunk as usize - 1]));
+                }
+            }
+            case = Case::new("C11", cfg, ops);
         }
         let nl = case.cfg.enc() as usize + case.cfg.comp() as usize;
         case.params.insert("depth".into(), rng.range(0, nl as u64) as i64);
